@@ -18,6 +18,7 @@ import (
 	listenerv3 "github.com/envoyproxy/go-control-plane/envoy/config/listener/v3"
 	routev3 "github.com/envoyproxy/go-control-plane/envoy/config/route/v3"
 	discovery "github.com/envoyproxy/go-control-plane/envoy/service/discovery/v3"
+	"golang.org/x/time/rate"
 	"google.golang.org/grpc/codes"
 	"google.golang.org/grpc/credentials"
 	"google.golang.org/grpc/status"
@@ -140,6 +141,9 @@ func newWisInstance(t *testing.T, name string, o wisOpts) *wisInstance {
 		KubeClientModifier: o.kubeModifier,
 	})
 	features.EnableXDSCaching = prevCache
+	// The connection rate limit is derived from GOMAXPROCS at process start; it belongs to no property and would make
+	// the schedule depend on the worker's core count. Limit 0 = opt out (WaitForRequestLimit returns at once).
+	fds.Discovery.RequestRateLimit = rate.NewLimiter(0, 1)
 	return &wisInstance{name: name, f: f, fds: fds, opts: o}
 }
 
